@@ -5,7 +5,7 @@
 \* + NoGarbage: a later request is served exactly as by a fresh handler.
 \* The driver also runs it with SharedBuf = TRUE (INVARIANT NoGarbage only): TLC must REFUTE it -
 \* request 1 fails to encode an event, request 2's event is assembled on the residue.
-\* measured: 18,322 distinct / 47,850 generated states, depth 41, ~3 s; SharedBuf: counterexample of 24 states
+\* measured (a4760cc): 16,264 distinct / 42,828 generated states, depth 41, ~3 s; SharedBuf: counterexample of 24 states
 \* (... MRecv, MEncodeFail, MPanicClose, MPFlushBegin/End, MBlobBegin/End, ServerCancel, FinBegin/End, NextRequest, ... MRecv, MWriteBegin), < 2 s.
 \* thorough (the driver sets MaxN = 3, FailSet up to 4): see notes/C12.md.
 INIT Init
